@@ -325,8 +325,21 @@ def check_request(ctx, P):
                 return M.mentions_path(t, "self.pi_q")
             ctx.ob("f.request", "dx-src|%s" % f.name, resolves_to_piq(src), "Data_Exchange PDU is not copied from pi_q: " + show(src), cf.loc(cb))
             S = g.at(cb)
-            ok, w = M.all_disj(S, lambda k: k[0] == "call" and M.callee_matches(k[1], "is_operate"), {True})
+            is_op = lambda k: k[0] == "call" and M.callee_matches(k[1], "is_operate")
+            ok, w = M.all_disj(S, is_op, {True})
             ctx.ob("f.request", "dx-operate|%s" % f.name, ok, "outputs copied into the request without the Operate guard: " + w, cf.loc(cb))
+            # exactness: in Operate the copy happens on *every* path (no further condition suppresses it)
+            gm = GuardAnalysis(cf, P, marks={(cb, None): "copy"})
+            bad = []
+            for rb in cf.return_blocks:
+                for fs in gm.at(rb):
+                    opv = [vs for k, vs in fs.items() if is_op(k)]
+                    in_operate = any(vs == ("in", frozenset([True])) for vs in opv)
+                    undecided = not opv
+                    if (in_operate or undecided) and gm.count_of(fs, "copy") != {1}:
+                        bad.append(M.fmt_facts(fs))
+            ctx.ob("f.request", "dx-operate-exact|%s" % f.name, not bad,
+                   "in Operate the output image must be copied into every Data_Exchange request, but a path class skips the copy: " + "; ".join(bad[:3]), cf.loc(cb))
     # the library never writes pi_q: every &mut of pi_q is handed out (returned) or a whole reset
     for u in mut_uses_of_field(P, CR, "pi_q", "ManagedSlice"):
         f = u["fn"]
